@@ -33,6 +33,7 @@ def initial_files() -> T.Tuple[L.Files, L.Files]:
         'c': L.Spec('c', 'combo', 'a', choices=['a', 'b', 'c']),
         'arr': L.Spec('arr', 'array', 'x', choices=['x', 'y', 'z']),
         'f': L.Spec('f', 'feature', 'auto'),
+        'tags': L.Spec('tags', 'array', 'a', choices=None),
         'y': L.Spec('y', 'string', 'ytop'),
         'yc': L.Spec('yc', 'combo', 'a', choices=['a', 'b', 'c']),
     }
@@ -84,7 +85,7 @@ class Gen:
     def value_for(self, spec: L.Spec, valid: bool = True) -> str:
         r = self.rng
         if spec.kind == 'string':
-            return self.fresh()
+            return '' if (valid and r.random() < 0.12) else self.fresh()
         if spec.kind == 'boolean':
             return r.choice(['true', 'false']) if valid else 'maybe'
         if spec.kind == 'integer':
@@ -98,10 +99,16 @@ class Gen:
         if spec.kind == 'feature':
             return r.choice(['enabled', 'disabled', 'auto']) if valid else 'yes'
         if spec.kind == 'array':
+            if valid and r.random() < 0.12:
+                return ''       # -Dopt= : the empty array
+            if spec.choices is None:
+                return ','.join(self.fresh('e') for _ in range(r.randint(1, 3)))
             ch = spec.choices or []
             if not valid:
                 return 'nochoice'
-            k = r.randint(1, max(1, len(ch)))
+            if not ch:
+                return ''
+            k = r.randint(1, len(ch))
             return ','.join(r.sample(ch, k))
         raise AssertionError
 
@@ -156,7 +163,7 @@ class Gen:
         r = self.rng
         sub = r.choice(['', 'sub'])
         f = m.files[sub]
-        kinds = ['add', 'change-default', 'shrink', 'extend', 'range']
+        kinds = ['add', 'change-default', 'shrink', 'extend', 'range', 'add-choices', 'remove-choices']
         if len(f) > 1:
             kinds.append('remove')
         if f and r.random() < 0.12:
@@ -197,7 +204,7 @@ class Gen:
                 else:
                     sp.default = self.value_for(sp)
                 return {'edit': 'change-default', 'sub': sub, 'name': name, 'default': sp.default}
-            if kind == 'shrink' and sp.kind in ('combo', 'array') and len(sp.choices or []) > 1:
+            if kind == 'shrink' and sp.kind in ('combo', 'array') and sp.choices is not None and len(sp.choices) > 1:
                 # hostile: prefer to remove the value currently in effect
                 cur = None
                 k = L.key(sub, name)
@@ -217,7 +224,22 @@ class Gen:
                 if any(d not in ch for d in (sp.default.split(',') if sp.default else [])):
                     sp.default = ch[0]
                 return {'edit': 'shrink', 'sub': sub, 'name': name, 'removed': victim, 'default': sp.default}
-            if kind == 'extend' and sp.kind in ('combo', 'array'):
+            if kind == 'add-choices' and sp.kind == 'array' and sp.choices is None:
+                k = L.key(sub, name)
+                cur = m.value(k).split(',') if (m.st.configured and name in m.st.applied[sub] and m.value(k)) else []
+                ch = [self.fresh('ch'), self.fresh('ch')]
+                if cur and r.random() < 0.4:
+                    ch += cur               # the value in effect stays valid
+                elif cur:
+                    ch += cur[1:]           # hostile: one item of the value in effect is no longer allowed
+                sp.choices = ch
+                if any(d not in ch for d in (sp.default.split(',') if sp.default else [])):
+                    sp.default = ch[0]
+                return {'edit': 'add-choices', 'sub': sub, 'name': name, 'choices': ch, 'default': sp.default}
+            if kind == 'remove-choices' and sp.kind == 'array' and sp.choices is not None:
+                sp.choices = None
+                return {'edit': 'remove-choices', 'sub': sub, 'name': name}
+            if kind == 'extend' and sp.kind in ('combo', 'array') and sp.choices is not None:
                 new = self.fresh('ch')
                 sp.choices = list(sp.choices or []) + [new]
                 return {'edit': 'extend', 'sub': sub, 'name': name, 'added': new}
@@ -349,7 +371,7 @@ def run_history(job: T.Tuple[int, int, str, T.Optional[T.List[dict]]]) -> dict:
             write_files()
             for nm in e['name'].split(','):
                 last_edit[L.key(e['sub'], nm)] = e['edit']
-            if e['sub'] == '' and e['edit'] in ('shrink', 'extend', 'range'):
+            if e['sub'] == '' and e['edit'] in ('shrink', 'extend', 'range', 'add-choices', 'remove-choices'):
                 redeclared_parents.add(e['name'])
             step = {'step': 'edit', **e}
             res['steps'].append(step)
@@ -405,7 +427,7 @@ def run_history(job: T.Tuple[int, int, str, T.Optional[T.List[dict]]]) -> dict:
                         m.files[subn].setdefault(n, sp)
                         cur = m.files[subn][n]
                         if cur.kind in ('combo', 'array'):
-                            cur.choices = sorted(set(cur.choices or []) | set(sp.choices or []))
+                            cur.choices = None if (cur.choices is None or sp.choices is None) else sorted(set(cur.choices) | set(sp.choices))
                         if cur.kind == 'integer':
                             cur.min, cur.max = 0, 1000
                 write_files()
@@ -532,6 +554,51 @@ def run_history(job: T.Tuple[int, int, str, T.Optional[T.List[dict]]]) -> dict:
     return res
 
 
+LITERAL_SCRIPTS = [
+    # options given to --wipe are the user's last word: they beat what an earlier recorded buildtype implies
+    ('wipe-explicit-beats-recorded-buildtype',
+     [(['setup', '@B', '@S', '-Dbuildtype=release'], {'optimization': '3', 'debug': 'false'}),
+      (['setup', '--wipe', '@B', '@S', '-Doptimization=1', '-Ddebug=true'], {'optimization': '1', 'debug': 'true'}),
+      (['setup', '--wipe', '@B', '@S'], {'optimization': '1', 'debug': 'true'}),
+      (['setup', '--reconfigure', '@B', '@S'], {'optimization': '1', 'debug': 'true'})]),
+    ('explicit-optimization-next-to-buildtype',
+     [(['setup', '@B', '@S', '-Dbuildtype=debugoptimized', '-Doptimization=s'], {'optimization': 's', 'debug': 'true'}),
+      (['setup', '--reconfigure', '@B', '@S'], {'optimization': 's', 'debug': 'true'}),
+      (['setup', '--wipe', '@B', '@S'], {'optimization': 's', 'debug': 'true'})]),
+    ('configure-then-wipe-keeps-empty-values',
+     [(['setup', '@B', '@S', '-Ds=first', '-Dtags=b,c'], {'s': 'first', 'tags': 'b,c'}),
+      (['configure', '@B', '-Ds=', '-Dtags='], {'s': '', 'tags': ''}),
+      (['setup', '--wipe', '@B', '@S'], {'s': '', 'tags': ''})]),
+]
+
+
+def run_literal(job: T.Tuple[int, str]) -> dict:
+    """Fixed command sequences with literal expectations (values the documents fix directly)."""
+    idx, root = job
+    name, steps = LITERAL_SCRIPTS[idx]
+    base = os.path.join(root, f'lit{idx}')
+    src, b = os.path.join(base, 'src'), os.path.join(base, 'b')
+    top, sub = initial_files()
+    runner.write_tree(src, render_project(L.Model(top, sub)))
+    res: T.Dict[str, T.Any] = {'script': name, 'problems': [], 'checked': 0}
+    for i, (argv, expect) in enumerate(steps):
+        rr = runner.meson([a.replace('@B', b).replace('@S', src) for a in argv], cwd=src)
+        if rr.rc != 0:
+            res['problems'].append({'mechanism': f'literal:{name}/command-failed', 'step': i, 'argv': argv, 'tail': (rr.out + rr.err)[-500:]})
+            break
+        keys = [(k, '' if k in top else None) for k in expect]
+        got = optprobe.read_options(b, keys)
+        for k, e in expect.items():
+            res['checked'] += 1
+            if L.norm(got.get(k)) != e:
+                res['problems'].append({'mechanism': f'literal:{name}/value-mismatch:{k}', 'step': i, 'argv': argv,
+                                        'got': got.get(k), 'expected': e})
+        if res['problems']:
+            break
+    shutil.rmtree(base, ignore_errors=True)
+    return res
+
+
 def main() -> int:
     chk = common.Check(PID)
     runner.preload()
@@ -563,6 +630,11 @@ def main() -> int:
     ]
     jobs += [(900000 + i, len(sc), root, sc) for i, sc in enumerate(directed)]
     results = common.pmap(run_history, jobs, chk.jobs, timeout=3000)
+    for lres in common.pmap(run_literal, [(i, root) for i in range(len(LITERAL_SCRIPTS))], chk.jobs, timeout=600):
+        chk.case(('literal', lres['script']))
+        chk.count('monitor:literal_expectations_checked', lres['checked'])
+        for p in lres['problems']:
+            chk.violation(p['mechanism'], {k: v for k, v in p.items() if k != 'mechanism'})
     for res in results:
         sig = [(s['step'], s.get('edit'), s.get('expect_ok')) for s in res['steps']]
         chk.case(sig, nontrivial=len(res['steps']) >= 3)
@@ -582,6 +654,7 @@ def main() -> int:
     chk.require('monitor:values_compared', 500)
     chk.require('monitor:get_option_messages_compared', 100)
     chk.require('persist:coredata.save', 10)
+    chk.require('monitor:literal_expectations_checked', 10)
     return chk.finish(
         rule='case = one seeded history (setup / configure -D -U / reconfigure / wipe / option-file edits / injected failures); '
              'distinct = distinct sequences of (step kind, edit kind, expected outcome); non-trivial = at least 3 steps',
